@@ -27,11 +27,18 @@ def run(chk):
     from harness.checks import _ctxlife
     # the life cycle of the context object across runs (to_dict / from_dict / run(ctx=...) are its edges): CtxLife.tla
     _ctxlife.run(chk)
-    rng = random.Random(chk.seed)
+    # the schedule sample of every program: a baseline that does not depend on the seed (the seed-0 stream), plus -- under
+    # another seed -- that seed's sample on top: a different seed adds schedules, it never takes the baseline's away
+    streams = [random.Random(0)] + ([random.Random(chk.seed)] if chk.seed else [])
     items = []
     for (label, prog, ext) in sc.family("resume", quick=chk.quick):
-        paths = et.explore(prog, ext_menu=ext, max_depth=chk.pick(14, 18), max_paths=chk.pick(4, 150), rng=random.Random(rng.random()),
-                           timeout_advance=False, drain=True, max_ext=2)
+        paths, seen_s = [], set()
+        for rng in streams:
+            for (tr, sched) in et.explore(prog, ext_menu=ext, max_depth=chk.pick(14, 18), max_paths=chk.pick(4, 150),
+                                          rng=random.Random(rng.random()), timeout_advance=False, drain=True, max_ext=2):
+                if repr(sched) not in seen_s:
+                    seen_s.add(repr(sched))
+                    paths.append((tr, sched))
         for (tr, sched) in paths:
             cases = et.snapshot_cases(prog, sched, ext)
             # cause feature for keys: was a delayed retry sitting in the timer heap at the snapshot?
